@@ -936,8 +936,14 @@ Definition prune (vals : list stored) : list stored :=
 Definition build_tree_guard (vals : list stored) : outcome unit :=
   forall_guard (fun v => _ <- tree_guard (sv_path v) ;; json_leaf_guard (sv_val v)) (prune vals).
 
-(* LeafSelectionQuery. nil_map: the stored configuration has a nil Values map (repaired: allocated
-   before the change context is merged, so the flag no longer matters) *)
+(* `config.Values[path] = value` for every accepted update.  A configuration without values is read back from
+   the store with a nil Values map ([] here); a write to it panics unless the map was allocated first, which the
+   handler does (`if config.Values == nil { config.Values = make(...) }`, allocated = true) *)
+Definition merge_writes (allocated : bool) (vals : list stored) (ups : list str) : outcome unit :=
+  if negb allocated && match vals with [] => true | _ => false end && match ups with [] => false | _ => true end
+  then Panic w_nilmap else Ok tt.
+
+(* LeafSelectionQuery *)
 Definition lsq_handler (e : env) (st : state) (r : lsq_req) : outcome bool :=
   match find_config st (l_target r) (l_type r) (l_version r) with
   | None => Err c_notfound
@@ -951,7 +957,8 @@ Definition lsq_handler (e : env) (st : state) (r : lsq_req) : outcome bool :=
                   ups <- lsq_updates (pl_rw p) (s_prefix cx) (s_update cx) [] ;;
                   ups <- lsq_updates (pl_rw p) (s_prefix cx) (s_replace cx) ups ;;
                   dels <- lsq_deletes (pl_rw p) (s_prefix cx) (s_delete cx) [] ;;
-                  if forallb is_path_valid ups then Ok (lsq_merge (cf_values c) ups dels)
+                  if forallb is_path_valid ups then
+                    _ <- merge_writes true (cf_values c) ups ;; Ok (lsq_merge (cf_values c) ups dels)
                   else Err c_unknown                       (* NewChangeValue's error is returned unwrapped *)
                 else Ok (cf_values c)
               | None => Ok (cf_values c)
